@@ -5,6 +5,7 @@ Decides (structural necessary conditions only):
               merge_table) to a normal return re-canonicalises (calls a rebuilder) or proves that
               the union-find did not grow (uf size before == after)
   R-FIXPOINT  rebuild loops stop only when every change signal of the pass is false
+  R-SCAN-EXTENT rebuild scans cover the physical extent of every table (no row is skipped)
   R-MIN       the engine's merge-on-conflict and the union-find choose the same (minimum) id
 """
 from . import rebuild_common as rc
@@ -109,3 +110,5 @@ def run(chk, prog, tier):
                  "both sides pick the same representative")
     mc.check_bridge_min(chk, prog, R)
     mc.check_uf_union(chk, prog, R)
+    from . import extent_common
+    extent_common.check_scan_extent(chk, prog)
